@@ -760,7 +760,7 @@ func reencode(f *Func, r *Rng) (Func, bool) {
 	}
 	if len(lp) > 0 && !hasSoft {
 		var leaves []Param
-		collectParams(f.Params, &leaves)
+		collectParams(deAnon(f.Params), &leaves)
 		var out []Param
 		var cur *Param
 		for i, p := range leaves {
@@ -890,6 +890,7 @@ func evalC15(h *History) *Outcome {
 			// a declared function (possibly with ignored unexported fields in
 			// its parameter objects) against a reflect-made equivalent
 			nf.Cat = -1
+			nf.Params = deAnon(nf.Params)
 			ch = true
 			c.probe("declared_vs_dynamic")
 		}
